@@ -39,6 +39,11 @@ TWIN_NAMES = ['x', 'm']
 TWIN_FORMS = ['{n}', '@{n}', '@@{n}', "'{n}'", '"{n}"', '`{n}`', '@`{n}`', "@'{n}'", '@"{n}"', '{N}']
 TWINS = [f.format(n=n, N=n.upper()) for n in TWIN_NAMES for f in TWIN_FORMS]
 
+# spellings of literals that other SQL dialects have and a lexer might come to accept (dollar quoting, prefixed strings, hex /
+# exponent / bare-dot numbers): whatever token they become, the stored text must keep the characters
+EXOTIC = ['$$a$$', "$$it's$$", '$t$a$t$', "E'a\\n'", "N'a'", "X'41'", "b'1'", '0x1F', '1e5', '.5', '5.', '1_000', "U&'a'", '[x y]', '"a""b"']
+EXOTIC_WITH = EXOTIC + ['x', "'a'", '=', ',', 'select']
+
 LAYOUTS = ['line', 'own_lines', 'indented', 'tight', 'tight_then_blank']
 
 
@@ -104,6 +109,11 @@ class CHECK(Check):
             for seq in itertools.product(TWINS if n <= 2 else TWINS[:len(TWIN_FORMS)], repeat=n):
                 for ei in range(len(EMBED)):
                     out.append((ei, 'line', seq))
+        for n in (1, 2):
+            for seq in itertools.product(EXOTIC_WITH, repeat=n):
+                if any(x in EXOTIC for x in seq):
+                    for ei in range(len(EMBED)):
+                        out.append((ei, 'line', seq))
         for pre in TWINS:
             for tw in TWINS:
                 for ei in range(len(EMBED)):
@@ -178,7 +188,7 @@ class CHECK(Check):
     def coverage(self, agg):
         return {'exhaustive': True, 'lexeme_alphabet': LEX, 'embeddings': [e[0] for e in EMBED], 'layouts': LAYOUTS,
                 'rule': 'all balanced lexeme sequences of length<=3 (thorough 4) x 15 embeddings x layouts (length 3: one layout per embedding in quick) '
-                        '+ twin lexemes (one name as identifier / @variable / @@variable / each quoted form / upper case): all sequences of <= 2, and each one embedded after each other one was lexed by an earlier statement of the process + accepted grammar sentences as inner queries; distinct_nontrivial = distinct (embedding, stored string)'}
+                        '+ spellings of literals other SQL dialects have (dollar quoting, prefixed strings, hex / exponent numbers) in sequences of <= 2 + twin lexemes (one name as identifier / @variable / @@variable / each quoted form / upper case): all sequences of <= 2, and each one embedded after each other one was lexed by an earlier statement of the process + accepted grammar sentences as inner queries; distinct_nontrivial = distinct (embedding, stored string)'}
 
     def describe_case(self, case):
         ei, layout, payload = case
